@@ -392,6 +392,10 @@ class Loader:
         if (mod, attr) == ("copy", "copy"):
             from .builtins_ import BUILTINS
             return BUILTINS["copy"]
+        if mod in ("collections.abc", "typing", "typing_extensions") and attr in ("Iterable", "Iterator", "Hashable", "Sized", "Container"):
+            v = self.ext_class(f"collections.abc.{attr}", None)
+            self.externals[key] = v
+            return v
         if (mod, attr) == ("types", "NoneType"):
             v = self.ext_class("NoneType", type(None))
             self.externals[key] = v
